@@ -1378,6 +1378,7 @@ pub fn codegen(
     let mut errors = Diagnostics::default().with_code_map(&ctx.tree.code_map);
     ctx.pass_idx = 0;
     while ctx.pass_idx != MAX_ITERATIONS {
+        let symbol_count = ctx.symbols.node_count();
         match ctx.emit_tokens(&ast.main_file().tokens) {
             Ok(()) => (),
             Err(e) => {
@@ -1385,6 +1386,10 @@ pub fn codegen(
             }
         }
         ctx.after_pass().expect("Could not finalize pass");
+
+        // Symbols that were added during this pass may shadow (or finally define) something that was
+        // already used earlier in the same pass, so everything needs to be re-evaluated once more.
+        let symbols_added = ctx.symbols.node_count() != symbol_count;
 
         // Are there no segments yet? Then create a default one.
         if ctx.segments.is_empty() {
@@ -1408,11 +1413,11 @@ pub fn codegen(
             // If there were no other errors, then we should see if there was anything undefined.
             if errors.is_empty() {
                 // Nothing undefined anymore? Then we're done!
-                if ctx.undefined.is_empty() {
+                if ctx.undefined.is_empty() && !symbols_added {
                     break;
                 } else {
                     // If the same symbols are undefined that were undefined in the previous pass, they are truly undefined.
-                    if ctx.undefined == prev_undefined {
+                    if !ctx.undefined.is_empty() && ctx.undefined == prev_undefined {
                         let errors = ctx
                             .undefined
                             .iter()
